@@ -28,6 +28,9 @@ pub struct Scn {
     /// a Delay_Req is in flight when the first Sync that carries an offset arrives (so the clock is stepped between
     /// the request's transmit timestamp and the arrival of its response)
     pub inflight: bool,
+    /// peer-to-peer delay mechanism: the link delay comes from Pdelay exchanges (their result is handed to the
+    /// filter as `peer_delay`), and every Sync offset is corrected by the filter's own mean delay estimate
+    pub p2p: bool,
 }
 
 pub struct Outcome {
@@ -66,6 +69,9 @@ pub fn run_traced(g: &mut FGen, rng: &Prng, s: &Scn, trace: bool) -> Outcome {
         DrespArrive { t3: i128, t4: i128 },
         /// the filter update timer, armed when the slave clock read `armed`
         Update { gen: u64 },
+        /// the Pdelay_Resp (and its follow-up) for the request stamped `t1` (slave clock) reaches the slave; the peer
+        /// turned it around in `resid`
+        PdRespArrive { t1: i128, resid: i128 },
     }
     g.dead = false;
     g.ops = 0;
@@ -127,6 +133,11 @@ pub fn run_traced(g: &mut FGen, rng: &Prng, s: &Scn, trace: bool) -> Outcome {
                 let o = g.emit(format!("FLT m {} {} - - {} - {} 0", reading.max(0), off.map(|x| x.to_string()).unwrap_or("-".into()), raw, clk));
                 called = true;
                 out.measurements += 1;
+                if s.p2p {
+                    if let Some(md) = o.split_whitespace().find_map(|w| w.strip_prefix("md=")).and_then(|x| x.parse::<i128>().ok()) {
+                        mean_delay = Some(md);
+                    }
+                }
                 if o.contains(" upd=1 ") {
                     upd_gen += 1;
                     push(&mut queue, t + 2 * SEC, Ev::Update { gen: upd_gen });
@@ -137,6 +148,31 @@ pub fn run_traced(g: &mut FGen, rng: &Prng, s: &Scn, trace: bool) -> Outcome {
                 if s.inflight && t - t0 < 20 * SEC {
                     // while the servo may still step: a request in flight across every Sync arrival
                     push(&mut queue, next_sync_arrival - s.delay / 2, Ev::DreqSend { chain: false });
+                }
+            }
+            Ev::DreqSend { chain } if s.p2p => {
+                let t1 = reading;
+                let t2 = t + s.delay + jit(rng).max(-s.delay);
+                let resid = 100 * US + rng.below(900_001) as i128 * NS;
+                push(&mut queue, t2 + resid + s.delay + jit(rng).max(-s.delay), Ev::PdRespArrive { t1, resid });
+                if chain {
+                    let gap = ((td as f64) * (rng.below(2_000_001) as f64 / 1_000_000.0)) as i128 + 1;
+                    push(&mut queue, t + gap, Ev::DreqSend { chain: true });
+                }
+            }
+            Ev::PdRespArrive { t1, resid } => {
+                // ((t4 - t1) - (t3 - t2)) / 2, t4 = the slave's reading now
+                let pd = ((reading - t1) - resid) / 2;
+                let o = g.emit(format!("FLT m {} - - {} - - {} 0", reading.max(0), pd, clk));
+                called = true;
+                out.measurements += 1;
+                // the port keeps the filter's mean delay estimate and corrects the next Sync offsets with it
+                if let Some(md) = o.split_whitespace().find_map(|w| w.strip_prefix("md=")).and_then(|x| x.parse::<i128>().ok()) {
+                    mean_delay = Some(md);
+                }
+                if o.contains(" upd=1 ") {
+                    upd_gen += 1;
+                    push(&mut queue, t + 2 * SEC, Ev::Update { gen: upd_gen });
                 }
             }
             Ev::DreqSend { chain } => {
@@ -232,6 +268,7 @@ pub fn random_scn(rng: &Prng, corner: bool) -> Scn {
             log_dreq: *rng.pick(&[-3, 1, 0]),
             duration_s: 600,
             inflight: false,
+            p2p: false,
         }
     } else {
         Scn {
@@ -243,6 +280,7 @@ pub fn random_scn(rng: &Prng, corner: bool) -> Scn {
             log_dreq: pick_log(rng),
             duration_s: 600,
             inflight: false,
+            p2p: false,
         }
     }
 }
@@ -264,6 +302,10 @@ pub fn generate(out: &mut Out, rng: &Prng, thorough: bool) {
         let mut s = random_scn(rng, i % 3 == 0);
         s.duration_s = deadline_s(&s) as i64 + 200;
         s.inflight = i % 4 == 1;
+        s.p2p = i % 5 == 2;
+        if s.p2p {
+            s.inflight = false;
+        }
         if let Some(j) = std::env::var("VERIF_LOOP_JITTER_NS").ok().and_then(|x| x.parse::<i128>().ok()) {
             s.jitter = j * NS;
         }
@@ -277,7 +319,7 @@ pub fn generate(out: &mut Out, rng: &Prng, thorough: bool) {
             s.jitter / NS,
             s.log_sync,
             s.log_dreq,
-            if s.inflight { " request-in-flight-at-first-step" } else { "" }
+            if s.inflight { " request-in-flight-at-first-step" } else if s.p2p { " peer-to-peer" } else { "" }
         );
         g.out.count("loop.scenarios");
         if explore {
